@@ -65,8 +65,9 @@ fn format_number(
         Some(0) => parts.truncate(1),
         Some(i) => {
             // TODO consider removal options
-            #[allow(clippy::cast_sign_loss, clippy::cast_possible_truncation)]
-            let i = i as usize;
+            // A negative scale asks for no fractional digits at all.
+            #[allow(clippy::cast_possible_truncation)]
+            let i = usize::try_from(i).unwrap_or(0);
 
             if parts.len() == 1 {
                 parts.push(String::new());
